@@ -216,9 +216,9 @@ class Extractor:
                 # //@ LOOPHEAD @<iter-name> <key tokens>: name the ghost iterator of the `for` loop holding the key
                 d["loophead"].append((" ".join(w[2:]), w[1][1:]))
             elif k == "CLOSURE":
-                # //@ CLOSURE <recv>.<method>  /  head text  /  //@ ENDCLOSURE
+                # //@ CLOSURE <recv>.<method> | .<method>#n | @<key tokens>  /  head text  /  //@ ENDCLOSURE
                 txt, _ = grab(["ENDCLOSURE"])
-                d["closures"].append((w[1], txt.strip()))
+                d["closures"].append((" ".join(w[1:]), txt.strip()))
             elif k == "BODYONLY":
                 d["bodyonly"] = True
             elif k == "RENAME":
@@ -589,9 +589,25 @@ class Extractor:
         # The anchor is the call and the parameter name only, so an edit of the closure body keeps the anchor and is
         # checked against the clause.
         for (target, head) in d["closures"]:
-            recv, meth = target.split(".")
-            hits = [k for k in range(a, b - 5) if toks[k].text == recv and toks[k + 1].text == "." and toks[k + 2].text == meth
-                    and toks[k + 3].text == "(" and toks[k + 4].text == "|" and toks[k + 5].kind == "id" and toks[k + 6].text == "|"]
+            if target.startswith("@"):
+                # `@key tokens`: the call `<anything>.method(|x| ..)` whose closure holds the key token sequence (whatever the method)
+                want = token_texts(target[1:])
+                hits = [k - 1 for k in range(a + 1, b - 5) if toks[k].text == "." and toks[k + 1].kind == "id"
+                        and toks[k + 2].text == "(" and toks[k + 3].text == "|" and toks[k + 4].kind == "id" and toks[k + 5].text == "|"
+                        and find_seq(toks, want, k + 3, src.tbl[k + 2])]
+            elif target.startswith("."):
+                # `.method#n`: the n-th call `<anything>.method(|x| ..)` of the item, whatever the receiver expression
+                meth, _, occn = target[1:].partition("#")
+                hits = [k - 1 for k in range(a + 1, b - 5) if toks[k].text == "." and toks[k + 1].text == meth
+                        and toks[k + 2].text == "(" and toks[k + 3].text == "|" and toks[k + 4].kind == "id" and toks[k + 5].text == "|"]
+                n_occ = int(occn or 1)
+                if n_occ > len(hits) or (not occn and len(hits) != 1):
+                    raise LostAnchor("%s: CLOSURE anchor `%s` found %d times in %s %s" % (rel, target, len(hits), kind, name))
+                hits = [hits[n_occ - 1]]
+            else:
+                recv, meth = target.split(".")
+                hits = [k for k in range(a, b - 5) if toks[k].text == recv and toks[k + 1].text == "." and toks[k + 2].text == meth
+                        and toks[k + 3].text == "(" and toks[k + 4].text == "|" and toks[k + 5].kind == "id" and toks[k + 6].text == "|"]
             if len(hits) != 1:
                 raise LostAnchor("%s: CLOSURE anchor `%s(|x| ..)` found %d times in %s %s" % (rel, target, len(hits), kind, name))
             k = hits[0]
